@@ -149,6 +149,50 @@ def none_changes(quick):
     return viol, n
 
 
+def model_changes(quick):
+    """clone(<x>_model=M) on an object with non-empty <x>_params, M accepting the same keys, no <x>_params among the changes: the clone
+    equals a fresh object built from the original's parameter values with the model changed (the model parameters are carried over,
+    exactly as update() does)"""
+    realfuzz.init()
+    viol, n = [], 0
+    cases = [("MassFunction", {"mdef_model": "SOMean", "mdef_params": {"overdensity": 300}, "hmf_model": "Tinker08"}, {"mdef_model": "SOCritical"}, "dndm"),
+             ("MassFunction", {"filter_model": "SharpK", "filter_params": {"c": 2.2}}, {"filter_model": "SharpKEllipsoid"}, "sigma"),
+             ("Transfer", {"growth_model": "Carroll1992", "growth_params": {"zmax": 50.0, "dz": 0.02}}, {"growth_model": "GenMFGrowth"}, "growth_factor"),
+             ("MassFunction", {"hmf_model": "SMT", "hmf_params": {"a": 0.8, "p": 0.25}}, {"hmf_model": "ST"}, "fsigma"),
+             ("Transfer", {"transfer_model": "EH_BAO", "transfer_params": {"use_sugiyama_baryons": True}}, {"transfer_model": "EH_NoBAO"}, "power"),
+             ("MassFunctionWDM", {"wdm_model": "Viel05", "wdm_params": {"mu": 1.3}}, {"wdm_mass": 2.5}, "dndm")]
+    with warnings.catch_warnings():
+        warnings.simplefilter("ignore")
+        np.seterr(all="ignore")
+        for cn, extra, change, q in cases:
+            cls = realfuzz.class_by_name(cn)
+            for computed in (False, True):
+                try:
+                    o = cls(**dict(copy.deepcopy(realfuzz.BASE[cn]), **copy.deepcopy(extra)))
+                    if computed:
+                        realfuzz.read(o, q)
+                    o.update(z=0.5)
+                    fr = cls(**dict(copy.deepcopy(dict(o.parameter_values)), **copy.deepcopy(change)))
+                    want = realfuzz.read(fr, q)
+                except Exception:
+                    continue
+                n += 1
+                script = [f"o = {cn}(**{dict(realfuzz.BASE[cn], **extra)})"] + ([f"o.{q}"] if computed else []) + ["o.update(z=0.5)", f"c = o.clone(**{change})", f"fresh = {cn}(**dict(o.parameter_values, **{change}))"]
+                try:
+                    c = o.clone(**copy.deepcopy(change))
+                except Exception as e:
+                    viol.append({"key": f"{cn}/clone-model-change/{sorted(change)[0]}/raises", "what": f"{cn}: clone({change}) raised {type(e).__name__}: {e} although a fresh object with those parameters is valid", "replay": {"kind": "c15", "script": script}})
+                    continue
+                if realfuzz.canon(c.parameter_values) != realfuzz.canon(fr.parameter_values):
+                    diff = [k for k in fr.parameter_values if realfuzz.canon({k: c.parameter_values.get(k)}) != realfuzz.canon({k: fr.parameter_values[k]})]
+                    viol.append({"key": f"{cn}/clone-model-change/{sorted(change)[0]}/params", "what": f"{cn}: clone({change}) has parameter values differing from a fresh object with the changed parameters: " +
+                                 ", ".join(f"{k}: clone={realfuzz.show(c.parameter_values.get(k))} fresh={realfuzz.show(fr.parameter_values[k])}" for k in diff[:3]), "replay": {"kind": "c15", "script": script}})
+                    continue
+                if realfuzz.read(c, q) != want:
+                    viol.append({"key": f"{cn}/clone-model-change/{sorted(change)[0]}/output", "what": f"{cn}: clone({change}).{q} differs from a fresh object's", "replay": {"kind": "c15", "script": script}})
+    return viol, n
+
+
 def dict_changes(quick):
     """clone(**changes) with a non-empty dict-valued change must leave the original's parameters (deep comparison) and its
     later recomputations untouched"""
@@ -264,7 +308,7 @@ def run(ctx):
             if not any(y["key"] == x["key"] for y in out["violations"]):
                 x["replay"] = {"kind": "c15", "script": script, "cls": cn, "camb": camb}
                 out["violations"].append(x)
-    for fn in (none_changes, dict_changes, camb_user_params):
+    for fn in (none_changes, model_changes, dict_changes, camb_user_params):
         v, k = fn(quick)
         n += k
         for x in v:
@@ -273,7 +317,7 @@ def run(ctx):
     out["coverage"] = {
         "evaluations": n + st["ops"], "programs": st["programs"], "disagreements_checked": st["programs"],
         "traces_validated_against_impl": st["programs"], "distinct_nontrivial": n,
-        "rule": "each case = random prior history, one of deepcopy / clone() / clone(**changes) / pickle round trip, comparison of the copy with a fresh object, an update on the copy (forcing recomputation) and on the original with independence snapshots; CAMB-backed Transfer/MassFunction included",
+        "rule": "each case = random prior history, one of deepcopy / clone() / clone(**changes) / pickle round trip, comparison of the copy with a fresh object, an update on the copy (forcing recomputation) and on the original with independence snapshots; CAMB-backed Transfer/MassFunction included; clone(<x>_model=M) with non-empty <x>_params (6 cases, before and after computing)",
         "copy_kinds": hows, "heap": st, "samples": samples,
         "search": "copy/clone/pickle scenarios on the real classes",
     }
